@@ -4,6 +4,8 @@ package main
 
 import (
 	"fmt"
+	"github.com/makiuchi-d/gozxing/common/reedsolomon"
+	"sync"
 
 	"github.com/makiuchi-d/gozxing"
 	qrdec "github.com/makiuchi-d/gozxing/qrcode/decoder"
@@ -369,7 +371,27 @@ func c07Tables(r *fw.Rec) {
 	r.Sample(map[string]interface{}{"kind": "tables", "checked": "40 versions: size, total codewords, alignment centres, 160 block structures, 34 version words (stored value and all <=3-bit error patterns), 32 format words (all <=3-bit error patterns)"})
 }
 
+// c07OtherFields: before the first QR symbol of the process the Reed-Solomon encoder has worked in
+// the other fields for every parity length QR uses (a process that also writes Data Matrix or
+// encodes Aztec data does just that): what a QR block is divided by depends on the QR field alone.
+var c07OtherFieldsOnce sync.Once
+
+func c07OtherFields() {
+	c07OtherFieldsOnce.Do(func() {
+		for _, f := range []*reedsolomon.GenericGF{reedsolomon.GenericGF_DATA_MATRIX_FIELD_256, reedsolomon.GenericGF_AZTEC_DATA_8, reedsolomon.GenericGF_AZTEC_DATA_10} {
+			for n := 1; n <= 68; n++ {
+				w := make([]int, 9+n)
+				for i := 0; i < 9; i++ {
+					w[i] = 1 + i
+				}
+				_ = reedsolomon.NewReedSolomonEncoder(f).Encode(w, n)
+			}
+		}
+	})
+}
+
 func c07(c *fw.Ctx) {
+	c07OtherFields()
 	c.Rule("all 1280 (version, level, mask) configurations, each with N payloads (modes rotate over numeric/alphanumeric/byte UTF-8/kanji, a third of the byte payloads in another declared character set of the registry - ECI header, count field = bytes of that encoding -, length capacity, capacity-1 or random; a third of the payloads as GS1 symbols: FNC1 in first position, after the ECI header where a character set is declared): library Encoder_encode with forced version and mask vs qrref.BuildMatrix module for module (and, for every other (version, level), three symbols with the mask left to the encoder, compared under the mask it reports and compared AGAIN after the later encodes), and the library decoder on the qrref-built symbol (text, raw data codewords, level); plus the decoder's per-version tables and all 32+34 BCH words; distinct = distinct (version, level, mask, payload)")
 	c.Assume("qrref (harness/ref/qrref) is the transcription of ISO/IEC 18004: tables typed independently, geometry/BCH/capacities computed; anchored on Annex I and published capacities in the start-up self-test")
 	c.Assume("automatic mask selection is not compared (the N3 penalty rule is ambiguous in the standard); masks are forced")
